@@ -95,9 +95,12 @@ def unpack(k):
     return tuple(a)
 
 
+SEARCH_VERSION = 1  # part of the cache key: bump when the candidate list of `search` changes (negative results are cached)
+
+
 def ops_hash(gops, rops):
     h = hashlib.sha256()
-    h.update(repr((list(gops), list(rops))).encode())
+    h.update(repr((SEARCH_VERSION, [tuple(a) for a in gops], [tuple(a) for a in rops])).encode())
     return h.hexdigest()[:32]
 
 
@@ -421,14 +424,14 @@ def int_cert(cert):
 
 def _in_lattice_coeffs(v, gens):
     """integer coefficients a with sum a_i gens_i = v, or None (gens = unit translations in 24ths followed by centrings)"""
+    if all(x % 24 == 0 for x in v):
+        return [v[0] // 24, v[1] // 24, v[2] // 24] + [0] * (len(gens) - 3)
     for k, c in enumerate(gens[3:]):
         w = [v[i] - c[i] for i in range(3)]
         if all(x % 24 == 0 for x in w):
             a = [w[0] // 24, w[1] // 24, w[2] // 24] + [0] * (len(gens) - 3)
             a[3 + k] = 1
             return a
-    if all(x % 24 == 0 for x in v):
-        return [v[0] // 24, v[1] // 24, v[2] // 24] + [0] * (len(gens) - 3)
     return None
 
 
@@ -680,9 +683,11 @@ def examine(sg, data, cache=None, use_committed=True):
     return out
 
 
-def run_equiv(ck, sglist, skip_pos=()):
+def run_equiv(ck, sglist, skip_pos=(), deep=False):
     """certify every tabulated setting against the frozen reference of `number % 1000`; returns
-    {"failed": {pos: detail}, "certified": n, ...}; verdicts are registered by the caller"""
+    {"failed": {pos: detail}, "certified": n, ...}; verdicts are registered by the caller.
+    deep (thorough tier): every accepted certificate is re-verified with `fractions` by the independent set comparison
+    `verify_fractions`, and the search is repeated from scratch (no committed hint, no cache) for every setting."""
     data = load_reference()
     cache = load_cache()
     listed_unc = {u["number"]: u for u in data.get("uncertified", [])}
@@ -696,6 +701,16 @@ def run_equiv(ck, sglist, skip_pos=()):
         if r["status"] == "skipped":
             res["skipped"].append({"number": sg.number, "why": r["why"]})
         elif r["status"] == "certified":
+            if deep:
+                from .common import Broken
+
+                gops, rops = int_ops(sg), reference_ops(data, sg.number % 1000)
+                if not verify_fractions(gops, rops, r["certificate"]):
+                    raise Broken("c03_equiv: the integer verifier accepts the certificate of #%s, the fraction verifier does not" % sg.number)
+                if r["source"] != "identity":
+                    c2 = search(gops, rops)
+                    if c2 is None or verify(gops, rops, c2)[0] is not None:
+                        raise Broken("c03_equiv: a fresh search finds no certificate for #%s although %s" % (sg.number, cert_text(r["certificate"])))
             res["certified"] += 1
             res["sources"][r["source"]] = res["sources"].get(r["source"], 0) + 1
             s = res["by_system"].setdefault(str(sg.crystal_system), {"certified": 0, "identity": 0})
@@ -710,6 +725,21 @@ def run_equiv(ck, sglist, skip_pos=()):
     if cache.pop("_dirty", False):
         save_cache(cache)
     return res
+
+
+def references_pairwise_inequivalent(data=None):
+    """thorough tier: no two of the frozen reference settings of one crystal class are equivalent (they are 230 different
+    types); returns the list of offending (m, n, certificate)"""
+    data = data or load_reference()
+    out = []
+    for lo, hi in CLASS_RANGES:
+        for a in range(lo, hi + 1):
+            for b in range(a + 1, hi + 1):
+                ra, rb = reference_ops(data, a), reference_ops(data, b)
+                c = search(ra, rb)
+                if c is not None and verify(ra, rb, c)[0] is None:
+                    out.append((a, b, c))
+    return out
 
 
 def replay_setting(sg):
